@@ -289,6 +289,24 @@ Proof.
   eexists. eexists. eexists. vm_compute. reflexivity.
 Qed.
 
+(* The code before the second fix: with the largest limit there is (a caller's "no limit"), the
+   first Read panics although the source has three bytes. *)
+Lemma limit_maxint_refuted : exists s c, consumer_pos c /\
+  (Z.of_nat (length (data_of s)) <= max_int64)%Z /\
+  exists cb ca, limit_run Original max_int64 s c None 1 = ([], Some EPanic, cb, ca).
+Proof.
+  exists [Data [1; 2; 3]%N], {| csizes := []; cdflt := 4 |}.
+  split; [split; [constructor | cbn [cdflt]; lia]|].
+  split; [vm_compute; discriminate|].
+  eexists. eexists. vm_compute. reflexivity.
+Qed.
+
+(* ... where the current tree delivers the source unchanged. *)
+Example limit_maxint_fixed :
+  limit_run Fixed max_int64 [Data [1; 2; 3]%N] {| csizes := []; cdflt := 4 |} None 1
+  = ([1; 2; 3]%N, Some EEOF, 0, 1).
+Proof. vm_compute. reflexivity. Qed.
+
 (* ===================================================================================== *)
 (* MultiReaderCloser                                                                       *)
 
